@@ -88,7 +88,7 @@ func (c C19Case) fileUpTo(body []string, closed bool) (src string, bodyStart int
 	for i := 0; i < c.Prefix; i++ {
 		head = append(head, []string{"", "// header comment", "/* c */"}[i%3])
 	}
-	head = append(head, "{namespace ns.c19}", "", "/** @param p */", "{template .other}", "{$p}", "{/template}", "", "/**", " * @param a", " */", "{template .main}")
+	head = append(head, "{namespace ns.c19}", "", "/** @param p", " * @param? q */", "{template .other}", "{$p}{$q ?: ''}", "{/template}", "", "/**", " * @param a", " */", "{template .main}")
 	all := append(append([]string{}, head...), body...)
 	if closed {
 		all = append(all, "{if not $a}{$a}{/if}{/template}", "")
@@ -238,6 +238,9 @@ func compileRegistry(names, srcs []string) (c *compiled, err error, panicked int
 }
 
 var c19rec *recorder
+
+// c19InnerAt: the failing print stands on this line of the current multi-line shape (set with the shape)
+var c19InnerAt int
 
 func checkC19(c C19Case) Verdict {
 	if c.Kind == "parse" {
@@ -408,6 +411,14 @@ func checkC19(c C19Case) Verdict {
 					if !inMsg {
 						failing, alsoOK = []string{"{css $a.nokey.deeper, name}"}, -1
 					}
+				case 0:
+					// the failure inside the content of a param that follows a value param: the print's line, or
+					// the line of a tag that encloses it - not the line of the param before, which did not fail
+					if !inMsg && (c.Fault/8)%2 == 1 {
+						failing = []string{"{call .other}", "{param p: 1 /}", "{param q}", "content {$a.nokey.deeper}", "{/param}", "{/call}"}
+						c19InnerAt = 3
+						alsoOK = 2
+					}
 				}
 			}
 		}
@@ -487,6 +498,10 @@ func checkC19(c C19Case) Verdict {
 		// the failing command's line, or the line of a block command that encloses it
 		wantLine := start + at
 		okLine := fp.Line() == wantLine || alsoOK >= 0 && fp.Line() == wantLine+alsoOK // (the {call} line, or the line of the param whose value failed)
+		if c19InnerAt > 0 {
+			okLine = okLine || fp.Line() == wantLine+c19InnerAt
+			c19InnerAt = 0
+		}
 		if !okLine {
 			// enclosing block openers among the preceding body lines
 			open := []int{}
